@@ -33,6 +33,7 @@ partial def parseCExpr (tp : TimeParser τ) : Sexp → CExpr τ
   | .list (.atom "any" :: cs) => .any (cs.map (parseCExpr tp))
   | .list [.atom "inv", c] => .inv (parseCExpr tp c)
   | .list [.atom "tracked", x, op, v] => .tracked x.nat! op.nat! v.int!
+  | .list [.atom "tracked2", x, op, y] => .tracked2 x.nat! op.nat! y.nat!
   | .list [.atom "reslevel", r, op, .list am] => .resLevel r.nat! op.nat! (am.map Sexp.int!)
   | _ => .eternity
 
@@ -73,6 +74,8 @@ partial def parseStmt (tp : TimeParser τ) : Sexp → Stmt τ
         (ps.map parsePat, hb.map (parseStmt tp))
       | _ => ([], [])))
   | .list [.atom "ret", v] => .ret v.int!
+  | .list [.atom "finally", .list (.atom "body" :: body), .list (.atom "cleanup" :: cl)] =>
+    .tryFinally (body.map (parseStmt tp)) (cl.map (parseStmt tp))
   | .list (.atom "lock" :: l :: body) => .withLock l.nat! (body.map (parseStmt tp))
   | .list [.atom "avail", l] => .logAvail l.nat!
   | .list [.atom "qput", q, v] => .qPut q.nat! v.int!
